@@ -10,6 +10,7 @@
 * whether `HttpHeader::getCc` (src/HttpHeader.cc) parses the joined list or each field line (flag `ccParsedPerLine`);
 * whether the 304 branch of `clientReplyContext::handleIMSReply` (src/client_side_reply.cc) releases an entry refreshed by a 304
   that carries no-store/private (flag `notModifiedHonoursNoStore`);
+* `delim[2]` of `strListGetItem` (src/StrList.cc), the bytes skipped before a list item;
 * which form `httpHeaderParseInt` (src/HttpHeaderTools.cc) has (flag `parseIntStrict`);
 * USE_HTTP_VIOLATIONS (include/autoconf.h), `neighbors_do_private_keys` (src/globals.cc), the defaults of `negative_ttl`,
   `minimum_expiry_time`, `max_stale` and the stock `refresh_pattern` lines (src/cf.data.pre), REFRESH_DEFAULT_* of the built-in rule.
@@ -333,6 +334,29 @@ def parse_int_strict(stage):
     return new
 
 
+def list_skip_bytes(stage):
+    """delim[2] of strListGetItem with the placeholder replaced by ',' : the bytes skipped before an item"""
+    src = strip_comments(stage.read("src/StrList.cc"))
+    body = function_body(src, r"\bstrListGetItem\s*\([^)]*\)\s*\{", "strListGetItem")
+    m = _need(re.search(r'static char delim\[3\]\[\d+\]\s*=\s*\{\s*"((?:[^"\\]|\\.)*)"\s*,\s*"((?:[^"\\]|\\.)*)"\s*,\s*"((?:[^"\\]|\\.)*)"\s*\}', body), "delim[3][..] of strListGetItem")
+    if m.group(1) != '\\"?,' or m.group(2) != '\\"\\\\':
+        raise Restructured("translate/reusable.py: delim[0]/delim[1] of strListGetItem changed (adapt scanItem)")
+    _need("delim[0][1] = del;" in norm(body) and "delim[2][1] = del;" in norm(body), "the delimiter substitution of strListGetItem")
+    esc = {"t": 9, "r": 13, "n": 10, "v": 11, "f": 12, "\\": 92, '"': 34}
+    out, lit, i = [], m.group(3), 0
+    while i < len(lit):
+        if lit[i] == "\\":
+            out.append(esc[lit[i + 1]])
+            i += 2
+        else:
+            out.append(ord(lit[i]))
+            i += 1
+    if len(out) < 2 or out[1] != ord("?"):
+        raise Restructured("translate/reusable.py: delim[2] of strListGetItem lost its placeholder")
+    out[1] = 44
+    return out
+
+
 def lean_bytes(s):
     return "[" + ", ".join(str(b) for b in s.encode("latin-1")) + "]"
 
@@ -375,6 +399,8 @@ def generate(stage):
               "/-- every registered method name (Http::MethodType), METHOD_OTHER stands for unregistered names -/",
               "def methodNames : List String := [%s]" % ", ".join('"%s"' % mname(m) for m in methods),
               "",
+              "/-- the bytes `strListGetItem(str, ',', ...)` skips before an item (its delim[2]) -/",
+              "def listSkipBytes : List UInt8 := [%s]" % ", ".join(str(b) for b in list_skip_bytes(stage)),
               "def useHttpViolations : Bool := %s" % ("true" if violations else "false"),
               "/-- httpHeaderParseInt rejects values without digits or outside int (strtol form) instead of truncating them (atoi form) -/",
               "def parseIntStrict : Bool := %s" % ("true" if parse_int_strict(stage) else "false"),
